@@ -237,7 +237,7 @@ func cmdCheck(id, tier string) int {
 			return 2
 		}
 	}
-	results, err := spawnWorkers(spec, tier, seed, budget.Runs, nw, nil)
+	results, err := spawnWorkers(spec, tier, seed, budget.Runs, nw, []string{"VERIF_TIER=" + tier})
 	if err != nil {
 		fmt.Fprintf(os.Stderr, "worker failure: %v\n", err)
 		return 2
